@@ -607,6 +607,7 @@ def run(c, facts):
     c.shared(R6, c15.r6_doc_sync, 'C15.R6', facts)
     c.shared(R6, c15.r3_reset_all, 'C15.R3', facts)
     c.shared(R6, c15.r12_change_applied, 'C15.R12', facts)
+    c.run(lambda c: c15.r17_eval_unconditional(c, facts, rule='C16.R17'))      # a folder that keeps its trees when only an imported text changed sends ranges of old spans over the new text
     import c11
     R7 = c.rule('C16.R7', 'LOADER-TEXT: the server parses exactly the text it holds for the document, so tree spans are byte offsets into the text positions are converted with (shared with C11.R1)')
     c.shared(R7, c11.r1_lex_range, 'C11.R1', facts)
